@@ -156,6 +156,7 @@ impl<'store> Transposable<'store> for ResultTextSelectionSet<'store> {
         // that we are dealing with a simple transposition instead) the source side that matches
         // can never be the same as the target side that is mappped to
         while let Some(tsel) = tselbuffer.pop_front() {
+            let mut fragment_found = false;
 
             // iterate over all the sides
             for (side_i, annotation) in via.annotations_in_targets(AnnotationDepth::One).enumerate()
@@ -228,6 +229,7 @@ impl<'store> Transposable<'store> for ResultTextSelectionSet<'store> {
                                     source_textselections.push(ResultTextSelection::Unbound(self.rootstore(), resource.as_ref() ,intersection.clone()));
                                 }
                             }
+                            fragment_found = true;
                             relative_offsets.push((refseqnr, relative_offset));
                             selectors_per_side[side_i].push(SelectorBuilder::TextSelector(
                                 resource.handle().into(),
@@ -239,6 +241,11 @@ impl<'store> Transposable<'store> for ResultTextSelectionSet<'store> {
                 }
             }
             if simple_transposition {
+                break;
+            }
+            if !fragment_found {
+                //this source fragment (or the remainder of one) lies outside the transposition, put it back so the check below fails
+                tselbuffer.push_front(tsel);
                 break;
             }
         }
